@@ -191,6 +191,8 @@ pub enum FireCtx {
     MidPoll(Cid),
     AfterDrop,
     SelfNow,
+    /// from inside the destructor of this child
+    InDrop(Cid),
 }
 
 #[derive(Clone, Debug)]
@@ -283,6 +285,9 @@ pub struct Child {
     pub exempt: bool,
     /// stream leaf whose script continues after its first `End` (C19: wait_until must stay transparent)
     pub resumable: bool,
+    /// when this child is dropped it invokes a waker handed to itself or to a sibling (a sender whose drop wakes
+    /// the receiver): destructors run inside polls, removals and the combinator's drop
+    pub wake_on_drop: bool,
 }
 impl Child {
     pub fn leaf(kind: Kind, script: Vec<Step>) -> Child {
@@ -312,6 +317,7 @@ impl Child {
             item: 0,
             exempt: false,
             resumable: false,
+            wake_on_drop: false,
         }
     }
     pub fn node(fam: Fam, cont: Cont, n: usize) -> Child {
@@ -400,6 +406,10 @@ pub struct Stats {
     pub thread_root_wakes_stale: u64,
     pub thread_waits: u64,
     pub polls_after_none: u64,
+    pub vec_spare_capacity: u64,
+    pub post_final_polls: u64,
+    pub post_final_panics: u64,
+    pub fires_in_drop: u64,
 }
 impl Stats {
     pub fn fields(&self) -> Vec<(&'static str, u64)> {
@@ -451,6 +461,10 @@ impl Stats {
             ("thread_root_wakes_stale", self.thread_root_wakes_stale),
             ("thread_main_waits", self.thread_waits),
             ("wait_until_streams_polled_on_after_none", self.polls_after_none),
+            ("fires_from_child_destructors", self.fires_in_drop),
+            ("vec_inputs_with_spare_capacity", self.vec_spare_capacity),
+            ("stream_polls_after_final_none", self.post_final_polls),
+            ("stream_polls_after_final_none_that_panicked_by_design", self.post_final_panics),
         ]
     }
     pub fn add(&mut self, o: &Stats) {
@@ -465,7 +479,8 @@ impl Stats {
             group_removes, group_reserves, group_grows, group_none, group_refills, held_exemptions,
             quiescent_checks, i1_obligations, i4_obligations, model_polls_checked, never_children,
             co_closure_calls, co_gauge_checks, co_errors, fairness_windows, thread_fires, thread_fires_stale,
-            thread_root_wakes, thread_root_wakes_stale, thread_waits, polls_after_none
+            thread_root_wakes, thread_root_wakes_stale, thread_waits, polls_after_none, vec_spare_capacity,
+            post_final_polls, post_final_panics, fires_in_drop
         );
         self.co_max_gauge = self.co_max_gauge.max(o.co_max_gauge);
     }
@@ -509,6 +524,9 @@ pub struct World {
     pub threaded: Option<std::sync::Arc<crate::child::TShared>>,
     /// small-scope DFS sweep: spend no decisions on variations that do not change the library's control flow
     pub small_mode: bool,
+    /// the consumer is polling a stream again after its final `None`: reference models are off, only the
+    /// poll-discipline monitor (I3) on the children stays on
+    pub post_final: bool,
 }
 
 #[derive(Default, Debug, Clone)]
@@ -558,6 +576,7 @@ impl World {
             injected_seen: false,
             threaded: None,
             small_mode: false,
+            post_final: false,
         }
     }
     fn rnd(&mut self) -> u64 {
@@ -624,6 +643,7 @@ impl World {
                         FireCtx::MidPoll(_) => 1,
                         FireCtx::AfterDrop => 2,
                         FireCtx::SelfNow => 3,
+                        FireCtx::InDrop(_) => 4,
                     }
             }
             Ev::ParentWake { current, .. } => 20 + *current as u64,
